@@ -89,6 +89,12 @@ class Ctx:
                 rc, out, err, dt = sh([sys.executable, os.path.join(VERIF, 'translate', f'gen_{g}.py'), REPO, COQ], timeout=120)
                 self.obligation(f'translate:{g}', rc == 0, (out + err))
                 ok &= rc == 0
+            # the other translators are run too, so that every generated file exists and is current (files are rewritten
+            # only when their content changes); their outcome is an obligation of the checks that name them
+            for fn in sorted(glob.glob(os.path.join(VERIF, 'translate', 'gen_*.py'))):
+                g = os.path.basename(fn)[4:-3]
+                if g not in gens:
+                    sh([sys.executable, fn, REPO, COQ], timeout=120)
             bad = grep_gate()
             self.obligation('no Admitted/Axiom/Parameter/unset checks anywhere in coq/', not bad, '; '.join(bad))
             ok &= not bad
